@@ -159,6 +159,7 @@ fn build_env(qs: &QuerySet) -> Env {
             names.push(std::ffi::CStr::from_ptr(*kinds.add(i)).to_string_lossy().into_owned());
         }
         let rust_names: Vec<String> = (0..len).map(|i| config.syntax_type_name(i).to_string()).collect();
+        header.push_str(&format!("kinds {}\n", rust_names.join(" ")));
         (tagger, c_lib::ts_tags_buffer_new(), if names == rust_names { "kinds=ok".to_string() } else { format!("kinds=DIFF:{}", names.join(",")) })
     };
     Env { language: b.language, config, query, header, tagger, buffer, ckinds }
@@ -174,6 +175,7 @@ fn emit_case(out: &mut impl Write, env: &Env, qid: &str, cid: &str, src: &[u8]) 
     let mut parser = Parser::new();
     parser.set_language(&env.language).unwrap();
     let tree = parser.parse(src, None).expect("parse");
+    writeln!(out, "pmeta {}", tree.root_node().has_error() as u8).unwrap();
     let mut cursor = QueryCursor::new();
     let mut ms = cursor.matches(&env.query, tree.root_node(), src);
     while let Some(m) = ms.next() {
@@ -254,6 +256,69 @@ fn emit_case(out: &mut impl Write, env: &Env, qid: &str, cid: &str, src: &[u8]) 
     }
     writeln!(out, "run").unwrap();
     (ntags, had_err)
+}
+
+/// Error codes of the C API against the enum of tags.h (Ok 0, UnknownScope 1, Timeout 2, InvalidLanguage 3,
+/// InvalidUtf8 4, InvalidRegex 5, InvalidQuery 6, InvalidCapture 7).
+fn emit_c_errors(out: &mut impl Write, env: &Env) {
+    unsafe {
+        let tagger = c_lib::ts_tagger_new();
+        let scope = std::ffi::CString::new("e").unwrap();
+        let mut probe = |name: &str, tags: &[u8], locals: &[u8], expected: u32| {
+            let e = c_lib::ts_tagger_add_language(
+                tagger,
+                scope.as_ptr(),
+                env.language.clone(),
+                tags.as_ptr(),
+                if locals.is_empty() { std::ptr::null() } else { locals.as_ptr() },
+                tags.len() as u32,
+                locals.len() as u32,
+            ) as u32;
+            writeln!(out, "cerr fn-cerr-{name} {e} {expected}").unwrap();
+        };
+        probe("ok", b"(identifier) @name @reference.x", b"", 0);
+        probe("invalid-query", b"(no_such_node) @name", b"", 6);
+        probe("invalid-capture", b"(identifier) @bogus", b"", 7);
+        probe("invalid-utf8", b"(identifier) @name ; \xff", b"", 4);
+        probe("invalid-utf8-locals", b"(identifier) @name @reference.x", b"; \xff", 4);
+        probe("invalid-regex", b"((comment) @doc (identifier) @name @reference.x (#strip! @doc \"(\"))", b"", 5);
+        let buffer = c_lib::ts_tags_buffer_new();
+        let unknown = std::ffi::CString::new("nope").unwrap();
+        let src = b"a;";
+        let e = c_lib::ts_tagger_tag(tagger, unknown.as_ptr(), src.as_ptr(), 2, buffer, std::ptr::null()) as u32;
+        writeln!(out, "cerr fn-cerr-unknown-scope {e} 1").unwrap();
+        // cancellation: a raised flag makes the C API answer Timeout and leave the buffer empty (the flag is
+        // polled every CANCELLATION_CHECK_INTERVAL = 100 iterations, so the source has > 100 matches)
+        let flag = std::sync::atomic::AtomicUsize::new(1);
+        let long: Vec<u8> = b"a;\n".repeat(300);
+        let e = c_lib::ts_tagger_tag(tagger, scope.as_ptr(), long.as_ptr(), long.len() as u32, buffer, &flag) as u32;
+        let n = c_lib::ts_tags_buffer_tags_len(buffer);
+        writeln!(out, "cerr fn-cerr-cancelled {e} 2").unwrap();
+        writeln!(out, "cerr fn-cerr-cancelled-empty {n} 0").unwrap();
+        c_lib::ts_tags_buffer_delete(buffer);
+        c_lib::ts_tagger_delete(tagger);
+    }
+    // the iterator's own periodic check: raise the flag after parsing; Err(Cancelled) must come within
+    // CANCELLATION_CHECK_INTERVAL (100) items
+    let flag = std::sync::atomic::AtomicUsize::new(0);
+    let long: Vec<u8> = b"a;\n".repeat(300);
+    let mut ctx = TagsContext::new();
+    let mut before = 0usize;
+    let mut seen = 0u32;
+    if let Ok((iter, _)) = ctx.generate_tags(&env.config, &long, Some(&flag)) {
+        flag.store(1, std::sync::atomic::Ordering::SeqCst);
+        for t in iter {
+            match t {
+                Ok(_) => before += 1,
+                Err(_) => {
+                    seen = 1;
+                    break;
+                }
+            }
+        }
+    }
+    writeln!(out, "cerr fn-cancel-iter-seen {seen} 1").unwrap();
+    writeln!(out, "cerr fn-cancel-iter-within-100 {} 1", (before <= 100) as u8).unwrap();
 }
 
 fn real_utf16_len(bytes: &[u8]) -> usize {
@@ -639,6 +704,7 @@ fn main() {
         *classes.entry(format!("{qid}:{class}")).or_default() += 1;
         sizes[match src.len() { 0..=63 => 0, 64..=255 => 1, 256..=1023 => 2, 1024..=4095 => 3, _ => 4 }] += 1;
     }
+    emit_c_errors(&mut out, &envs[0]);
     for k in 0..n_fn {
         let b = gen_bytes(&mut rng);
         writeln!(out, "u16 fn-u{k} {} {}", if b.is_empty() { "-".to_string() } else { hex(&b) }, real_utf16_len(&b)).unwrap();
